@@ -123,7 +123,8 @@ def embed_cases(tier):
     combos = [('A-sim', 'B-pc'), ('C-simex-caps', 'D-multi-mm'), ('B-pc', 'C-simex-caps'), ('A-sim', 'A-sim'), ('A-sim', 'FED'),
               ('A-sim', 'B-pc', 'C-simex-caps'), ('FED', 'B-pc', 'D-multi-mm'),
               # a federation whose tax flow / deposit market live in a region (not next to the treasury), after / before an economy sharing its codes
-              ('B-pc', 'FED-REGIONPLACED'), ('FED-REGIONPLACED', 'B-pc'), ('FED', 'FED-REGIONPLACED')]
+              ('B-pc', 'FED-REGIONPLACED'), ('FED-REGIONPLACED', 'B-pc'), ('FED', 'FED-REGIONPLACED'),
+              ('FED-DEFAULTCUR', 'B-pc'), ('A-sim', 'FED-DEFAULTCUR')]
     if tier == 'thorough':
         import itertools
         combos += [c for c in itertools.permutations(names + ['FED', 'FED-REGIONPLACED'], 2) if c not in combos]
@@ -131,6 +132,12 @@ def embed_cases(tier):
     for combo in combos:
         for ext in (False, True):
             cases.append((combo, ext))
+    # the second economy declared in the middle of the first (after the first's first country, before its other countries and sectors);
+    # with an ExternalSector also the external sector declared there
+    for combo in (('FED-DEFAULTCUR', 'B-pc'), ('FED-DEFAULTCUR', 'A-sim'), ('FED', 'B-pc'), ('B-pc', 'FED-DEFAULTCUR')):
+        for ext in (False, True):
+            cases.append((combo, ext, 'second-inside-first'))
+    cases.append((('FED-DEFAULTCUR',), True, 'external-inside-first'))
     return cases
 
 
@@ -141,19 +148,38 @@ def make_eco(i, vname):
         return eco_plan(cc, cur, None, fed=True)
     if vname == 'FED-REGIONPLACED':
         return eco_plan(cc, cur, None, fed={'TF': 'N', 'DEP': 'S'})
+    if vname == 'FED-DEFAULTCUR':
+        # the federation's last region is a Region() without a currency: it takes the model's default currency
+        p = Z.Plan('eco_' + cc)
+        Z.reg_federation(p, cc, cur, last_region_default_currency=True)
+        return p
     return eco_plan(cc, cur, eco_variants()[vname])
 
 
 def work_embed(case):
-    combo, ext = case
-    rec = {'plan': '+'.join(combo) + ('+EXT' if ext else ''), 'case': 'embed', 'obs': [], 'solver_s': 0.0, 'queries': 0}
+    combo, ext = case[:2]
+    layout = case[2] if len(case) > 2 else 'one-after-the-other'
+    rec = {'plan': '+'.join(combo) + ('+EXT' if ext else '') + ('' if layout == 'one-after-the-other' else ':' + layout), 'case': 'embed', 'obs': [], 'solver_s': 0.0, 'queries': 0}
     plans = [make_eco(i, v) for i, v in enumerate(combo)]
     jplans = list(plans)
-    if ext:
+    order = None
+    if layout != 'one-after-the-other':
+        # joint declaration list: first economy's first country, then (external sector and) the whole second economy, then the rest of the first
+        n0 = len(plans[0].decls)
+        rest = sum(len(p.decls) for p in plans[1:])
+        if ext:
+            pe = Z.Plan('ext')
+            Z.external(pe)
+            jplans = jplans + [pe]
+            rest += 1
+        order = [0] + list(range(n0, n0 + rest)) + list(range(1, n0))
+        if layout == 'second-inside-first' and ext:
+            order = [n0 + rest - 1, 0] + list(range(n0, n0 + rest - 1)) + list(range(1, n0))      # external sector first, as usual
+    elif ext:
         pe = Z.Plan('ext')
         Z.external(pe)
         jplans = [pe] + jplans
-    cj = Z.build(jplans)
+    cj = Z.build(jplans, order=order)
     ej = emit(cj)
     if not ej.text:
         rec['obs'].append({'kind': 'builds', 'what': 'joint build raises %r' % (ej.err,), 'verdict': 'sat', 'structural': {'error': repr(ej.err)}})
